@@ -1,13 +1,20 @@
 package main
 
 import (
+	"bufio"
+	"bytes"
 	"context"
+	"encoding/base64"
+	"encoding/hex"
 	"encoding/json"
 	"errors"
 	"fmt"
 	"io"
 	"math/rand"
+	"net"
 	"os"
+	"sort"
+	"strconv"
 	"strings"
 
 	"github.com/cloudwego/gopkg/protocol/thrift"
@@ -68,7 +75,12 @@ func (f *foreignEmbProtocol) Error() string  { return f.s }
 func (f *foreignEmbProtocol) TypeId() int32  { return f.t }
 
 // sentinelErrs: plain errors of the standard library that code likes to special-case by identity
-var sentinelErrs = map[int]error{9001: io.EOF, 9002: io.ErrUnexpectedEOF, 9003: context.Canceled, 9004: os.ErrDeadlineExceeded, 9005: io.ErrClosedPipe}
+var sentinelErrs = map[int]error{9001: io.EOF, 9002: io.ErrUnexpectedEOF, 9003: context.Canceled, 9004: os.ErrDeadlineExceeded, 9005: io.ErrClosedPipe,
+	// ... and values of the standard library's error TYPES (code ported from other Thrift libraries special-cases some)
+	// (only types without Unwrap / Is methods of their own: the algebra's plain errors have no chain)
+	9006: base64.CorruptInputError(3), 9007: hex.InvalidByteError('x'), 9013: strconv.ErrRange, 9014: io.ErrShortBuffer,
+	9015: io.ErrNoProgress, 9016: os.ErrClosed, 9017: net.ErrClosed, 9018: context.DeadlineExceeded, 9019: &json.SyntaxError{Offset: 3},
+	9020: bufio.ErrBufferFull, 9021: bytes.ErrTooLarge, 9022: &net.AddrError{Err: "bad", Addr: "a"}, 9023: net.UnknownNetworkError("x")}
 
 // uncmpErr: an error whose dynamic type is not comparable (like go/scanner.ErrorList); == on two of them panics
 type uncmpErr []string
@@ -330,7 +342,12 @@ func genExcCases(c *Ctx) []json.RawMessage {
 	// the standard library's sentinel values, bare and inside wrappers of other people: a wrapper around io.EOF is an
 	// error of its own (its text, its identity), whatever it answers to errors.Is(err, io.EOF)
 	var sent []*ErrDesc
-	for _, uidS := range []int{9001, 9002, 9003, 9004, 9005} {
+	var sentinelIDs []int
+	for id := range sentinelErrs {
+		sentinelIDs = append(sentinelIDs, id)
+	}
+	sort.Ints(sentinelIDs)
+	for _, uidS := range sentinelIDs {
 		sent = append(sent, &ErrDesc{UID: uidS, Kind: "plain", Text: sentinelErrs[uidS].Error(), Cause: &ErrDesc{UID: -1, Kind: "none"}})
 	}
 	for _, sd := range sent {
